@@ -2,6 +2,7 @@ import MesonModel.Rewrite.SpliceLemmas
 import MesonModel.Rewrite.StrLitLemmas
 import MesonModel.Rewrite.Parse
 import MesonModel.Rewrite.Compare
+import MesonModel.Rewrite.ListEdit
 /-
 C17 — rewriter edits are local and keep everything else meaning the same (theorems over the model).
 
@@ -152,6 +153,53 @@ theorem escape_roundtrip_partial (v : List Char) (hv : '\'' ∉ v) :
   exact lexString_units v
 
 example : '\'' ∉ "C:\\dir\\f".toList := by decide
+
+/-! ### list-valued edits: only the addressed elements change -/
+
+/-- `_remove_helper` (the loop as coded) keeps exactly the elements that are not hit, in their order -/
+theorem remove_keeps_unmatched_in_order {α : Type} (hit : α → Bool) (l : List α) :
+    removeHelper hit l = l.filter (fun i => !hit i) := removeHelper_eq_filter hit l
+
+/-- for an entry `k' = v`, being hit by the patterns `<key>=.*` of `default-options set/delete` means that its
+key IS one of the requested keys (not a key that merely ends with, starts with or contains one) -/
+theorem defaultOptions_hit_iff_own_key (keys : List (List Char)) (k' v : List Char)
+    (hkeys : ∀ k ∈ keys, '=' ∉ k) (hk' : '=' ∉ k') :
+    keys.any (fun k => keyMatches k (k' ++ '=' :: v)) = keys.contains k' := by
+  induction keys with
+  | nil => rfl
+  | cons k t ih =>
+    have iht := ih (fun x hx => hkeys x (by simp [hx]))
+    by_cases h : k = k'
+    · subst h; simp [keyMatches_self]
+    · have hm : keyMatches k (k' ++ '=' :: v) = false := by
+        cases hh : keyMatches k (k' ++ '=' :: v) with
+        | false => rfl
+        | true => exact absurd (keyMatches_own_key_only k k' v (hkeys k (by simp)) hk' hh) h
+      have hne : (k' == k) = false := by simp [Ne.symm h]
+      simp [List.any_cons, hm, iht, List.contains_cons, hne]
+      intro e; exact absurd e.symm h
+
+/-- `default-options delete`: the result is the old list without the entries of the requested keys; entries of
+every other key and entries without `=` stay, in order -/
+theorem defaultOptions_delete_is_filter (keys l : List (List Char)) :
+    defaultOptionsDelete keys l = l.filter (fun e => !(keys.any (fun k => keyMatches k e))) :=
+  removeHelper_eq_filter _ l
+
+theorem defaultOptions_keeps_entry_without_equals (keys : List (List Char)) (e : List Char) (he : '=' ∉ e) :
+    keys.any (fun k => keyMatches k e) = false := by
+  induction keys with
+  | nil => rfl
+  | cons k t ih => simp [List.any_cons, keyMatches_no_equals k e he, ih]
+
+/-- `default-options set`: old entries of other keys first (unchanged, in order), then `key=value` for the requested keys -/
+theorem defaultOptions_set_shape (kvs : List (List Char × List Char)) (l : List (List Char)) :
+    defaultOptionsSet kvs l
+      = l.filter (fun e => !((kvs.map (·.1)).any (fun k => keyMatches k e))) ++ kvs.map (fun kv => kv.1 ++ '=' :: kv.2) := by
+  simp [defaultOptionsSet, defaultOptions_delete_is_filter]
+
+example : defaultOptionsDelete ["debug".toList] ["b_ndebug=if-release".toList, "debug=true".toList, "c_args=-Ddebug=1".toList,
+    "sub:debug=true".toList, "debug".toList] = ["b_ndebug=if-release".toList, "c_args=-Ddebug=1".toList, "sub:debug=true".toList, "debug".toList] := by
+  decide
 
 /-! ### printer: what is read back -/
 
